@@ -29,6 +29,12 @@ For the module-level functions mprocess.convert_var_to_hss / convert_hss_to_var 
 For the eight static methods {State,Povm,Gate,MProcess}.calc_proj_{eq,ineq}_constraint_with_var:
     gen_static_defaults : list (string * pyval)            the default value of their on_para_eq_constraint parameter.
 
+For the equality projections of State and Gate (object level and variable level), whose whole content is index / slice assignment of constants:
+    gen_{state,gate}_obj_writes (dim : Z) : list write    the assignments performed on a COPY (copy.deepcopy / copy.copy / .copy()) of self.vec / self.hs -
+                                                          the translator REQUIRES that the written name is bound by such a copy and handed to the constructor;
+    gen_{state,gate}_var_writes (dim : Z) : list write    the assignments of the on_para_eq_constraint=False branch (on a copy of var);
+    gen_{state,gate}_var_true_is_arg : bool               the on_para_eq_constraint=True branch returns the argument itself, without any write.
+
 Accepted shapes (anything else raises Unsupported: the tie is reported broken, never silently skipped):
   factory:  def f(self, on_para_eq_constraint: bool = None, <more parameters with constant defaults>) -> ...:
       optional docstring;
@@ -441,6 +447,109 @@ def tr_h2v(fdef):
     return cond, tr_int_env(dl.args[1], {}), tr_int_env(ax[0].value, {})
 
 
+COPY_FORMS = ("copy.deepcopy(%s)", "copy.copy(%s)", "%s.copy()", "np.copy(%s)", "np.array(%s)")
+DIM_ENV = {"self.dim": "dim", "c_sys.dim": "dim", "self.composite_system.dim": "dim"}
+
+
+def is_copy_of(e, src):
+    return ast.unparse(e) in [f % src for f in COPY_FORMS]
+
+
+def tr_wval(e):
+    if isinstance(e, ast.Constant) and e.value in (0, 1) and not isinstance(e.value, bool):
+        return "VOne" if e.value == 1 else "VZero"
+    if isinstance(e, ast.Constant) and e.value in (0.0, 1.0):
+        return "VOne" if e.value == 1.0 else "VZero"
+    if ast.unparse(e) in ("1 / np.sqrt(%s)" % k for k in DIM_ENV):
+        return "VInvSqrtDim"
+    fail(e, "unsupported assigned value %s" % ast.unparse(e))
+
+
+def tr_slice(sl):
+    """index or slice -> (lo, hi option) as Gallina terms"""
+    if isinstance(sl, ast.Slice):
+        if sl.step is not None:
+            fail(sl, "slice step")
+        lo = "0" if sl.lower is None else tr_int_env(sl.lower, DIM_ENV)
+        hi = "None" if sl.upper is None else "(Some %s)" % tr_int_env(sl.upper, DIM_ENV)
+        return lo, hi
+    i = tr_int_env(sl, DIM_ENV)
+    return i, "(Some (%s + 1))" % i
+
+
+def tr_write(st, name):
+    """`name[i] = c` | `name[a:b] = c` | `name[r][..] = c` | `name[r, ..] = c`  ->  Gallina write, or None if st is not a subscript assignment"""
+    if not (isinstance(st, ast.Assign) and len(st.targets) == 1 and isinstance(st.targets[0], ast.Subscript)):
+        return None
+    t = st.targets[0]
+    v = tr_wval(st.value)
+    if isinstance(t.value, ast.Name) and t.value.id == name:
+        if isinstance(t.slice, ast.Tuple):
+            if len(t.slice.elts) != 2 or isinstance(t.slice.elts[0], ast.Slice):
+                fail(st, "unsupported 2-d index")
+            lo, hi = tr_slice(t.slice.elts[1])
+            return "W2 %s %s %s %s" % (tr_int_env(t.slice.elts[0], DIM_ENV), lo, hi, v)
+        lo, hi = tr_slice(t.slice)
+        return "W1 %s %s %s" % (lo, hi, v)
+    if isinstance(t.value, ast.Subscript) and isinstance(t.value.value, ast.Name) and t.value.value.id == name and not isinstance(t.value.slice, (ast.Slice, ast.Tuple)):
+        lo, hi = tr_slice(t.slice)
+        return "W2 %s %s %s %s" % (tr_int_env(t.value.slice, DIM_ENV), lo, hi, v)
+    fail(st, "subscript assignment to something else than the copied array")
+
+
+def no_other_mutation(stmts, name):
+    for st in stmts:
+        for n in ast.walk(st):
+            if isinstance(n, (ast.AugAssign, ast.Delete)) or (isinstance(n, ast.Assign) and any(not isinstance(t, ast.Name) for t in n.targets)):
+                fail(n, "unsupported mutation after the writes")
+            if isinstance(n, ast.Call) and isinstance(n.func, ast.Attribute) and n.func.attr in ("fill", "put", "itemset", "sort", "resize", "setfield", "ravel", "reshape", "view", "flatten") \
+                    and isinstance(n.func.value, ast.Name) and n.func.value.id == name:
+                fail(n, "method call on the copied array")
+
+
+def tr_eqproj_obj(fdef, attr):
+    """vec = copy.deepcopy(self.vec); vec[..] = c; ...; <construct the new object from vec>; return"""
+    b = body_wo_doc(fdef)
+    if not (b and is_assign(b[0]) and is_copy_of(b[0].value, "self." + attr)):
+        fail(fdef, "the first statement must bind a copy of self.%s" % attr)
+    name = b[0].targets[0].id
+    ws, k = [], 1
+    while k < len(b):
+        w = tr_write(b[k], name)
+        if w is None:
+            break
+        ws.append(w); k += 1
+    rest = b[k:]
+    no_other_mutation(rest, name)
+    if not rest or not isinstance(rest[-1], ast.Return) or not any(isinstance(n, ast.Name) and n.id == name for st in rest for n in ast.walk(st)):
+        fail(fdef, "the written copy must be handed to the constructor of the returned object")
+    if any(isinstance(n, ast.Attribute) and ast.unparse(n) == "self." + attr for st in rest for n in ast.walk(st)):
+        fail(fdef, "the original array is used after the copy was written")
+    return ws
+
+
+def tr_eqproj_var(fdef):
+    """if on_para_eq_constraint: new_var = var  else: new_var = copy.deepcopy(var); new_var[..] = c; ...   return new_var"""
+    b = body_wo_doc(fdef)
+    if not (len(b) == 2 and isinstance(b[0], ast.If) and isinstance(b[0].test, ast.Name) and b[0].test.id == FLAG and isinstance(b[1], ast.Return)
+            and isinstance(b[1].value, ast.Name)):
+        fail(fdef, "expected if on_para_eq_constraint: ... else: ...; return <name>")
+    name = b[1].value.id
+    T, E = b[0].body, b[0].orelse
+    true_is_arg = len(T) == 1 and is_assign(T[0], name) and ast.unparse(T[0].value) == "var"
+    if not (true_is_arg or (len(T) == 1 and is_assign(T[0], name) and is_copy_of(T[0].value, "var"))):
+        fail(b[0], "flag True: expected new_var = var (or a copy of it)")
+    if not (E and is_assign(E[0], name) and is_copy_of(E[0].value, "var")):
+        fail(b[0], "flag False: the first statement must bind a copy of var")
+    ws = []
+    for st in E[1:]:
+        w = tr_write(st, name)
+        if w is None:
+            fail(st, "flag False: only subscript assignments of constants may follow the copy")
+        ws.append(w)
+    return ws, true_is_arg
+
+
 STATICS = [("state.py", "State"), ("povm.py", "Povm"), ("gate.py", "Gate"), ("mprocess.py", "MProcess")]
 
 
@@ -497,6 +606,14 @@ def main():
         lines.append("Definition gen_h2v_axis : Z := %s." % axis)
         lines.append("Open Scope string_scope.")
         lines.append("Definition gen_static_defaults : list (string * pyval) := [%s]." % "; ".join("(%s, %s)" % (coq_str(n), c) for n, c in tr_static_defaults(repo)))
+        lines.append("Open Scope Z_scope.")
+        for fn, cls, attr, tag in (("state.py", "State", "vec", "state"), ("gate.py", "Gate", "hs", "gate")):
+            t = ast.parse(open(os.path.join(repo, "quara/objects", fn)).read())
+            ws = tr_eqproj_obj(find_method(t, cls, "calc_proj_eq_constraint"), attr)
+            lines.append("Definition gen_%s_obj_writes (dim : Z) : list write := [%s]." % (tag, "; ".join(ws)))
+            ws, tia = tr_eqproj_var(find_method(t, cls, "calc_proj_eq_constraint_with_var"))
+            lines.append("Definition gen_%s_var_writes (dim : Z) : list write := [%s]." % (tag, "; ".join(ws)))
+            lines.append("Definition gen_%s_var_true_is_arg : bool := %s." % (tag, "true" if tia else "false"))
         open(out, "w").write("\n".join(lines) + "\n")
     except Unsupported as e:
         sys.stderr.write("UNSUPPORTED: %s\n" % e)
